@@ -52,6 +52,7 @@ const (
 	c03EPv6b  // second IPv6 address in the same /56 as c03EPv6
 	c03EPalb  // second address inside the allow-listed network
 	c03EPalA2 // second connection endpoint with the peer-A-only address (same IP, other port)
+	c03EPv4m  // the IPv4 address of c03EPv4 spelled as an IPv4-mapped IPv6 multiaddr: the same IP, hence the same subnet
 )
 
 var c03EPs []c03EP
@@ -91,6 +92,7 @@ func init() {
 		c03EPv6b:  mk("v6-same/56", "/ip6/2001:db8:0:1ff::1/tcp/4001", "2001:db8:0:1ff::1", false, -1),
 		c03EPalb:  mk("v4-allowlisted-same-net", "/ip4/8.8.8.2/tcp/4001", "8.8.8.2", true, -1),
 		c03EPalA2: mk("v4-allowlisted-for-A-port2", "/ip4/9.9.9.1/tcp/4002", "9.9.9.1", false, 0),
+		c03EPv4m:  mk("v4-mapped-in-v6", "/ip6/::ffff:7.7.7.1/tcp/4003", "7.7.7.1", false, -1),
 	}
 }
 
